@@ -58,93 +58,6 @@ theorem takeFit_snd_subset (wl : Nat) (gs : List G) : ∀ g ∈ (takeFit wl gs).
   rw [← this]
   exact List.mem_append_right _ hg
 
-theorem takeFitForce_append (wl : Nat) (gs : List G) :
-    (takeFitForce wl gs).1 ++ (takeFitForce wl gs).2 = gs := by
-  induction gs generalizing wl with
-  | nil => simp [takeFitForce]
-  | cons g gs ih =>
-    unfold takeFitForce
-    split
-    · split
-      · simp [ih]
-      · simp [takeFit_append]
-    · simp
-
-theorem takeFitF_append (fx : Fixes) (len wl : Nat) (gs : List G) :
-    (takeFitF fx len wl gs).1 ++ (takeFitF fx len wl gs).2 = gs := by
-  unfold takeFitF
-  split
-  · exact takeFitForce_append wl gs
-  · exact takeFit_append wl gs
-
-theorem takeFitF_snd_length_le (fx : Fixes) (len wl : Nat) (gs : List G) :
-    (takeFitF fx len wl gs).2.length ≤ gs.length := by
-  have := congrArg List.length (takeFitF_append fx len wl gs)
-  simp at this; omega
-
-theorem takeFitF_snd_subset (fx : Fixes) (len wl : Nat) (gs : List G) :
-    ∀ g ∈ (takeFitF fx len wl gs).2, g ∈ gs := by
-  intro g hg
-  have := takeFitF_append fx len wl gs
-  rw [← this]
-  exact List.mem_append_right _ hg
-
-theorem takeFit_cons_fit (wl : Nat) (g : G) (gs : List G) (h : g.w ≤ wl) :
-    takeFit wl (g :: gs) = (g :: (takeFit (wl - g.w) gs).1, (takeFit (wl - g.w) gs).2) := by
-  rw [takeFit]; simp [h]
-
-theorem takeFitForce_cons_fit (wl : Nat) (g : G) (gs : List G) (h : g.w ≤ wl) :
-    takeFitForce wl (g :: gs) =
-      if g.w = 0 then (g :: (takeFitForce wl gs).1, (takeFitForce wl gs).2)
-      else (g :: (takeFit (wl - g.w) gs).1, (takeFit (wl - g.w) gs).2) := by
-  rw [takeFitForce]; simp [h]
-
-/-- When every cluster fits the width, forcing changes nothing. -/
-theorem takeFitForce_eq (wl : Nat) (gs : List G) (h : ∀ g ∈ gs, g.w ≤ wl) :
-    takeFitForce wl gs = takeFit wl gs := by
-  induction gs with
-  | nil => simp [takeFitForce, takeFit]
-  | cons g gs ih =>
-    have hg := h g (by simp)
-    rw [takeFitForce_cons_fit wl g gs hg, takeFit_cons_fit wl g gs hg]
-    split
-    · rename_i h0
-      rw [ih (fun g' hg' => h g' (List.mem_cons_of_mem _ hg')), h0]
-      simp
-    · rfl
-
-/-- Without the progress repair, or when the line is not empty, or when every cluster fits,
-`takeFitF` is `takeFit`. -/
-theorem takeFitF_eq (fx : Fixes) (len wl : Nat) (gs : List G)
-    (h : fx.forceProgress = false ∨ len ≠ 0 ∨ ∀ g ∈ gs, g.w ≤ wl) :
-    takeFitF fx len wl gs = takeFit wl gs := by
-  unfold takeFitF
-  split
-  · rename_i hc
-    rcases h with h | h | h
-    · rw [h] at hc; cases hc.1
-    · exact absurd hc.2 h
-    · exact takeFitForce_eq wl gs h
-  · rfl
-
-theorem takeFitForce_progress (wl : Nat) (g : G) (gs : List G) :
-    (takeFitForce wl (g :: gs)).2.length < (g :: gs).length := by
-  unfold takeFitForce
-  split
-  · split
-    · have := congrArg List.length (takeFitForce_append wl gs)
-      simp at this ⊢; omega
-    · have := takeFit_snd_length_le (wl - g.w) gs
-      simp; omega
-  · simp
-
-/-- With the progress repair, on an empty line, a non-empty section always loses a cluster. -/
-theorem takeFitF_progress (fx : Fixes) (wl : Nat) (g : G) (gs : List G) (hf : fx.forceProgress = true) :
-    (takeFitF fx 0 wl (g :: gs)).2.length < (g :: gs).length := by
-  unfold takeFitF
-  simp only [hf, true_and, if_true]
-  exact takeFitForce_progress wl g gs
-
 /-! ### The step relation -/
 
 theorem allZeroWidth_cons (s : Sec) (r : List Sec) :
@@ -155,13 +68,17 @@ theorem allZeroWidth_cons (s : Sec) (r : List Sec) :
 def PerfectRest (fx : Fixes) (rest : List Sec) : Prop :=
   rest = [] ∨ isLoneNl rest = true ∨ (fx.zwPerfectFit = true ∧ allZeroWidth rest = true)
 
+/-- The `stuckStop` repair applies. -/
+def StuckStop (fx : Fixes) (cfg : Cfg) (lw : Nat) (st : St) (gs : List G) : Prop :=
+  fx.stuckStop = true ∧ stuckCond cfg lw st gs
+
 /-- The four kinds of loop iteration that continue. -/
 inductive StepRel (fx : Fixes) (cfg : Cfg) (sym lw : Nat) : St → St → Prop
   | push (st : St) (style : Nat) (gs : List G) (rest : List Sec)
       (hs : st.stack = (style, gs) :: rest)
       (hl : limitReached (effMax cfg lw) st.result.length = false)
       (hfit : st.len + gsWidth gs < lw ∨ (st.len + gsWidth gs = lw ∧
-                (rest = [] ∨ (fx.zwPerfectFit = true ∧ allZeroWidth rest = true)))) :
+                (rest = [] ∨ (isLoneNl rest = false ∧ fx.zwPerfectFit = true ∧ allZeroWidth rest = true)))) :
       StepRel fx cfg sym lw st
         { st with curr := st.curr ++ [(style, gs)], len := st.len + gsWidth gs, stack := rest }
   | nl (st : St) (style : Nat) (gs : List G) (rest : List Sec)
@@ -175,8 +92,8 @@ inductive StepRel (fx : Fixes) (cfg : Cfg) (sym lw : Nat) : St → St → Prop
       (hl : limitReached (effMax cfg lw) st.result.length = false)
       (hge : lw ≤ st.len + gsWidth gs)
       (hnf : ¬ (st.len + gsWidth gs = lw ∧ PerfectRest fx rest))
-      (hw : widthLeft cfg lw st.len gs = 0) (hns : fx.noShortcut = false)
-      (hnfo : ¬ (fx.forceProgress = true ∧ st.len = 0)) :
+      (hns : ¬ StuckStop fx cfg lw st gs)
+      (hw : shortcutCond fx cfg lw st gs) :
       StepRel fx cfg sym lw st
         { result := st.result ++ [st.curr ++ [(sym, [cfg.leftSym])]],
           curr := [], len := 0, stack := (style, gs) :: rest }
@@ -185,13 +102,13 @@ inductive StepRel (fx : Fixes) (cfg : Cfg) (sym lw : Nat) : St → St → Prop
       (hl : limitReached (effMax cfg lw) st.result.length = false)
       (hge : lw ≤ st.len + gsWidth gs)
       (hnf : ¬ (st.len + gsWidth gs = lw ∧ PerfectRest fx rest))
-      (hw : widthLeft cfg lw st.len gs ≠ 0 ∨ fx.noShortcut = true ∨
-            (fx.forceProgress = true ∧ st.len = 0)) :
+      (hns : ¬ StuckStop fx cfg lw st gs)
+      (hw : ¬ shortcutCond fx cfg lw st gs) :
       StepRel fx cfg sym lw st
         { result := st.result ++
-            [st.curr ++ [(style, (takeFitF fx st.len (widthLeft cfg lw st.len gs) gs).1), (sym, [cfg.leftSym])]],
+            [st.curr ++ [(style, (takeFit (widthLeft cfg lw st.len gs) gs).1), (sym, [cfg.leftSym])]],
           curr := [], len := 0,
-          stack := (style, (takeFitF fx st.len (widthLeft cfg lw st.len gs) gs).2) :: rest }
+          stack := (style, (takeFit (widthLeft cfg lw st.len gs) gs).2) :: rest }
 
 theorem step_next {fx : Fixes} {cfg : Cfg} {sym lw : Nat} {st st' : St}
     (h : step fx cfg sym lw st = .next st') : StepRel fx cfg sym lw st st' := by
@@ -222,7 +139,11 @@ theorem step_next {fx : Fixes} {cfg : Cfg} {sym lw : Nat} {st st' : St}
             split at h
             · rename_i hz
               cases h
-              exact StepRel.push st style gs rest hs hl' (Or.inr ⟨hz.1, Or.inr hz.2⟩)
+              have hnl : isLoneNl rest = false := by
+                cases hb : isLoneNl rest with
+                | false => rfl
+                | true => exact absurd ⟨hz.1, hb⟩ hnn
+              exact StepRel.push st style gs rest hs hl' (Or.inr ⟨hz.1, Or.inr ⟨hnl, hz.2⟩⟩)
             · rename_i hnz
               have hge : lw ≤ st.len + gsWidth gs := Nat.le_of_not_lt hnlt
               have hnf : ¬ (st.len + gsWidth gs = lw ∧ PerfectRest fx rest) := by
@@ -232,22 +153,15 @@ theorem step_next {fx : Fixes} {cfg : Cfg} {sym lw : Nat} {st st' : St}
                 · exact hnn ⟨he, h2⟩
                 · exact hnz ⟨he, h3⟩
               split at h
-              · rename_i hw
-                cases h
-                exact StepRel.split0 st style gs rest hs hl' hge hnf hw.1 hw.2.1 hw.2.2
-              · rename_i hw
-                cases h
-                refine StepRel.splitk st style gs rest hs hl' hge hnf ?_
-                by_cases h0 : widthLeft cfg lw st.len gs = 0
-                · right
-                  cases hns : fx.noShortcut with
-                  | true => left; rfl
-                  | false =>
-                    right
-                    apply Classical.byContradiction
-                    intro hnf2
-                    exact hw ⟨h0, hns, hnf2⟩
-                · left; exact h0
+              · cases h
+              · rename_i hns
+                split at h
+                · rename_i hw
+                  cases h
+                  exact StepRel.split0 st style gs rest hs hl' hge hnf hns hw
+                · rename_i hw
+                  cases h
+                  exact StepRel.splitk st style gs rest hs hl' hge hnf hns hw
 
 theorem step_done_stackEmpty {fx : Fixes} {cfg : Cfg} {sym lw : Nat} {st : St}
     (h : step fx cfg sym lw st = .done .stackEmpty) : st.stack = [] := by
@@ -259,18 +173,33 @@ theorem step_done_stackEmpty {fx : Fixes} {cfg : Cfg} {sym lw : Nat} {st : St}
     · simp only at h
       repeat (first | cases h | split at h)
 
+/-- The loop stops with `LineLimit` at the line limit, or (repaired code) when stuck. -/
 theorem step_done_lineLimit {fx : Fixes} {cfg : Cfg} {sym lw : Nat} {st : St}
     (h : step fx cfg sym lw st = .done .lineLimit) :
-    st.stack ≠ [] ∧ limitReached (effMax cfg lw) st.result.length = true := by
+    st.stack ≠ [] ∧ (limitReached (effMax cfg lw) st.result.length = true ∨
+      (limitReached (effMax cfg lw) st.result.length = false ∧
+        ∃ style gs rest, st.stack = (style, gs) :: rest ∧ StuckStop fx cfg lw st gs)) := by
   unfold step at h
   split at h
   · cases h
-  · rename_i hs
+  · rename_i style gs rest hs
     split at h
     · rename_i hl
-      exact ⟨by simp [hs], hl⟩
-    · simp only at h
-      repeat (first | cases h | split at h)
+      exact ⟨by simp [hs], Or.inl hl⟩
+    · rename_i hl
+      simp only at h
+      split at h
+      · cases h
+      · split at h
+        · cases h
+        · split at h
+          · cases h
+          · split at h
+            · cases h
+            · split at h
+              · rename_i hst
+                exact ⟨by simp [hs], Or.inr ⟨by simpa using hl, style, gs, rest, hs, hst⟩⟩
+              · split at h <;> cases h
 
 /-- Invariant principle for the loop. -/
 theorem loop_inv {fx : Fixes} {cfg : Cfg} {sym lw : Nat} (P : St → Prop)
